@@ -24,7 +24,7 @@ contract("Cluster.deserialize", kind="assumed", fresh_result=True,
                   # an unsuccessful attempt writes nothing
                   "implies(not result[1], ghost.files == old(ghost.files) and ghost.vfiles == old(ghost.vfiles) and ghost.file_writes == old(ghost.file_writes))",
                   "ghost.runs == old(ghost.runs)",
-                  "forall(c, Cluster, implies(old(allocated(c)), c.g_promoted == old(c.g_promoted)))",
+                  "forall(c, Cluster, implies(c != result[0], c.g_promoted == old(c.g_promoted)))",       # no other handle changes its role
                   "ghost.loaded_complete == result[0]._config.is_complete",
                   # the persisted status invariant holds at every lock-free instant (C09) and the loaded jobs are the submission's jobs
                   "implies(deserialize_jobs, J(result[0]) and nameset(val(result[0]._job_status).jobs) == ghost.universe)"],
@@ -118,3 +118,27 @@ contract("resubmit_jobs", file=FRS,
          defs={"old_complete_flag": ([], "ghost.loaded_complete")},
          modifies=["ghost.exit_code"])
 ghost("loaded_complete", "bool")
+
+# ---- cancel-jobs (C14) ---------------------------------------------------------------------------------------------------------
+FCJ = "jade/cli/cancel_jobs.py"
+NO_ROLE = "forall(c, Cluster, not c.g_promoted) and not ghost.cluster_lock"
+contract("cancel_jobs", file=FCJ,
+         params=[("output", "Opaque"), ("complete", "bool"), ("verbose", "bool")],
+         locals={"ret": "int"},
+         call_alias={"run_command": "run_command_env"},
+         requires=["not ghost.cluster_lock", "forall(c, Cluster, not c.g_promoted)"],
+         ensures=["False"],
+         loops={1: {"invariant": [NO_ROLE, "ghost.scanceled == old(ghost.scanceled) and ghost.runs == old(ghost.runs)",
+]}},
+         raises={
+             "SystemExit": {"ensures": [
+                 NO_ROLE,                    # C10: the role is given back before every exit
+                 # C14: exit status 0 without --complete means: either the submission was already finished, or every active batch was asked to be
+                 # canceled and the canceled flag was persisted; nothing is handed to the scheduler by this command itself
+                 "ghost.runs == old(ghost.runs)",
+                 "implies(ghost.exit_code == 0 and not complete, ghost.loaded_complete or ghost.cancel_persisted)",
+             ], "frame": False},
+             "Timeout": {"ensures": ["not ghost.cluster_lock"], "frame": False},
+             "Exception": {"ensures": ["not ghost.cluster_lock"], "frame": False},
+         },
+         modifies=["ghost.exit_code"])
